@@ -315,7 +315,7 @@ func (w *V5View) MissingDirs() []string {
 
 // Read evaluates a full scan of the given series over the pinned view through the real block search / merge path.
 func (w *V5View) Read(sids []uint64, minTS, maxTS int64) []V5Row {
-	pp, _ := w.snp.getParts(nil, storage.NewShardCache("verif", 0, 0), minTS, maxTS)
+	pp, _ := w.snp.getParts(nil, storage.NewBypassCache(), minTS, maxTS)
 	ss := make([]common.SeriesID, len(sids))
 	for i := range sids {
 		ss[i] = common.SeriesID(sids[i])
